@@ -1,8 +1,8 @@
 (* C10 — property theorems.  Only statements, each closed by [exact], each followed by
    Print Assumptions. *)
 From Coq Require Import ZArith List Bool.
-From Centro Require Import Base.Sx Base.EmdBase Spec.Emd Model.Emd
-  Proofs.EmdDuality Proofs.EmdScaled Proofs.EmdModel Proofs.EmdSsp.
+From Centro Require Import Base.Sx Base.EmdBase Spec.Emd Model.Emd Model.EmdCert
+  Proofs.EmdDuality Proofs.EmdScaled Proofs.EmdModel Proofs.EmdSsp Proofs.EmdCertModel Proofs.EmdMetric.
 Import ListNotations.
 Open Scope Z_scope.
 
@@ -60,32 +60,69 @@ Theorem C10_reduce_balanced : forall Pc Qc Cc emp,
 Proof. exact reduce_balanced. Qed.
 Print Assumptions C10_reduce_balanced.
 
-(* FULL statement aimed at: for every valid input, if the model returns (d, F) for the full-flow
-   variant then there is a dual point with emd_cert_ok p q c pen d F alpha beta gamma = true.
+(* Every answer of the executable model that is compared with the implementation is the earth
+   mover's distance: ALL inputs (no domain restriction), all six variants.  The model
+   (Model.EmdCert.emd_certified) computes what the transcription of the code computes and then
+   certifies its own full flow with emd_cert_ok (dual point from a Bellman-Ford search inside the
+   model), answering None otherwise.  pen = None means "largest ground distance". *)
+Theorem C10_model_emd_correct : forall p q c pen ft gd d F,
+  emd_certified p q c pen ft gd = Some (d, F) ->
+  emd_spec p q c (penalty_of c pen) d /\
+  (ft = 2 -> feasible (length p) (length q) (nz p) (nz q) (emd_T p q) (mz F) /\
+             d = cost (length p) (length q) (mz c) (mz F) + penalty_of c pen * emd_extra p q) /\
+  (ft = 1 -> partial_ok p q c (penalty_of c pen) d F = true).
+Proof. exact model_emd_correct. Qed.
+Print Assumptions C10_model_emd_correct.
+
+(* FULL statement aimed at: on the stated domain the certified model always answers
+   (emd_certified ... <> None), i.e. the transcribed algorithm itself is optimal.
    PROVED here (all graphs, all sizes): whenever the model's successive-shortest-path solver returns,
    its result is a FLOW of the graph it was given — same arcs, non-negative net amounts, net outflow =
-   supply at every node.  MISSING: (1) minimality of its cost (invariant "no negative residual
-   cycle" / Bellman-Ford potentials stay feasible: lemma ssp_reduced_costs_nonneg), (2) the
-   book-keeping from the reduced graph back to the n x m flow (read_back row/column sums,
-   transform_flow_to_regular completes to min(sum P,sum Q) units, my_dist = cost + penalty).
-   Both are checked per instance instead: the model's own (d, F) goes through emd_cert_ok in every
-   run.  (Example: Proofs.EmdSsp.solver_hyps_example.) *)
-Theorem C10_ssp_produces_cert_partial : forall bb cc arcs',
+   supply at every node; and the reduced graph is balanced (C10_reduce_balanced).
+   MISSING: lemma ssp_reduced_costs_nonneg (no negative residual cycle is ever created, so the final
+   flow is of minimum cost and the dual search succeeds) and the read-back book-keeping
+   (read_back / transform_flow_to_regular / my_dist).  Observed instead: the certified model answers
+   on every generated instance of every run (a None is reported as a correspondence failure).
+   (Example: Proofs.EmdSsp.solver_hyps_example.) *)
+Theorem C10_model_total_partial : forall bb cc arcs',
   graph_ok bb cc -> zsum bb = 0 ->
-  ssp (supply_fuel bb) bb (mk_arcs cc) = Some arcs' ->
+  ssp bb (mk_arcs cc) = Some arcs' ->
   map skel arcs' = map skel (mk_arcs cc) /\ nonneg_flow arcs' /\
   forall v, (v < length bb)%nat -> outflow arcs' v = nz bb v.
 Proof. exact solver_returns_flow. Qed.
-Print Assumptions C10_ssp_produces_cert_partial.
+Print Assumptions C10_model_total_partial.
 
-(* FULL statement aimed at: for a metric ground distance (zero diagonal, symmetric, triangle
-   inequality) emd_hat_gd_metric returns the same value as emd_hat.
-   PROVED here: the book-keeping of the metric pre-flow — it moves exactly min(P_i,Q_i) along the
-   diagonal and hands P - min, Q - min to the common implementation.
-   MISSING: the exchange argument (lemma diag_preflow_optimal: some optimal flow of a metric
-   instance ships min(P_i,Q_i) from i to i).  Checked per instance instead: the gd_metric full flow
-   must pass emd_cert_ok and all variants must return the same value. *)
-Theorem C10_metric_shortcut_partial : forall P Q, length P = length Q ->
+(* What an accepted WITHOUT_TRANSHIPMENT flow guarantees: F is part of a feasible full flow G whose
+   cost + penalty is at most d, so d bounds the distance from above; with d equal to the certified
+   distance (also demanded by the check) G is optimal: F is a sub-flow of an optimal transport.
+   (Example: Proofs.EmdCertModel.partial_ok_example.) *)
+Theorem C10_partial_flow_sound : forall P Q C pen d F,
+  partial_ok P Q C pen d F = true ->
+  exists G, feasible (length P) (length Q) (nz P) (nz Q) (emd_T P Q) G /\
+            (forall i j, mz F i j <= G i j) /\
+            cost (length P) (length Q) (mz C) G + pen * emd_extra P Q <= d /\
+            (forall dstar, emd_spec P Q C pen dstar -> dstar <= d).
+Proof. exact partial_ok_sound. Qed.
+Print Assumptions C10_partial_flow_sound.
+
+(* The metric shortcut (emd_hat_gd_metric): for a ground distance with zero diagonal, non-negative
+   entries and the triangle inequality (symmetry is not needed), pre-flowing min(P_i,Q_i) on the
+   diagonal leaves the optimum unchanged: the instance and the residual instance handed to the
+   common implementation have the same optimal value.  All sizes, any T >= sum of the minima (in
+   particular T = min(sum P, sum Q)).  (Example: Proofs.EmdMetric.metric_hyps_example.) *)
+Theorem C10_metric_shortcut : forall n P Q C T,
+  (forall i, (i < n)%nat -> C i i = 0) ->
+  (forall i j, (i < n)%nat -> (j < n)%nat -> 0 <= C i j) ->
+  (forall i j k, (i < n)%nat -> (j < n)%nat -> (k < n)%nat -> C k j <= C k i + C i j) ->
+  zsum (map (mu P Q) (seq 0 n)) <= T ->
+  (forall i, (i < n)%nat -> 0 <= P i) -> (forall i, (i < n)%nat -> 0 <= Q i) ->
+  forall d, is_opt n n P Q C T d <-> is_opt n n (P' P Q) (Q' P Q) C (T' n P Q T) d.
+Proof. exact diag_preflow_optimal. Qed.
+Print Assumptions C10_metric_shortcut.
+
+(* the model's pre-flow is that diagonal flow: it moves exactly min(P_i,Q_i) and hands P - min,
+   Q - min to the common implementation *)
+Theorem C10_metric_preflow_bookkeeping : forall P Q, length P = length Q ->
   let pf := preflow P Q in
   length pf = length P /\
   forall i, (i < length P)%nat ->
@@ -93,4 +130,4 @@ Theorem C10_metric_shortcut_partial : forall P Q, length P = length Q ->
     snd t = Z.min (nz P i) (nz Q i) /\
     fst (fst t) = nz P i - snd t /\ snd (fst t) = nz Q i - snd t.
 Proof. exact preflow_spec. Qed.
-Print Assumptions C10_metric_shortcut_partial.
+Print Assumptions C10_metric_preflow_bookkeeping.
